@@ -30,10 +30,10 @@ var c10cProgs = []struct{ Name, Src string }{
 }
 
 type c10cCase struct {
-	Prog    string `json:"prog"`
-	Threads int    `json:"threads"`
-	Choices []int  `json:"choices"`
-	Sizes   []int  `json:"sizes"`
+	Prog    string   `json:"prog"`
+	Threads int      `json:"threads"`
+	Choices []int    `json:"choices"`
+	Sizes   []int    `json:"sizes"`
 	Trace   []string `json:"trace,omitempty"`
 }
 
